@@ -60,6 +60,10 @@ pub struct Scen {
     /// the destination accepts at most two bytes per write call (legal `Write` behaviour)
     #[serde(default)]
     pub short_dest: bool,
+    /// the destination answers its first write call with ErrorKind::Interrupted (a retry request,
+    /// not a failure: write_all and BufWriter retry it)
+    #[serde(default)]
+    pub interrupt_dest: bool,
 }
 
 /// Destination that records the size of every write call it receives.
@@ -68,14 +72,22 @@ pub struct Dest {
     pub data: Vec<u8>,
     pub calls: Vec<usize>,
     pub short: bool,
+    pub interrupt_next: bool,
 }
 impl Dest {
     fn new(short: bool) -> Dest {
-        Dest { data: vec![], calls: vec![], short }
+        Dest { data: vec![], calls: vec![], short, interrupt_next: false }
+    }
+    fn interrupting(short: bool) -> Dest {
+        Dest { data: vec![], calls: vec![], short, interrupt_next: true }
     }
 }
 impl Write for Dest {
     fn write(&mut self, buf: &[u8]) -> std::io::Result<usize> {
+        if self.interrupt_next && !buf.is_empty() {
+            self.interrupt_next = false;
+            return Err(std::io::Error::new(std::io::ErrorKind::Interrupted, "interrupted, try again"));
+        }
         let n = if self.short { buf.len().min(2) } else { buf.len() };
         self.data.extend_from_slice(&buf[..n]);
         self.calls.push(n);
@@ -223,13 +235,13 @@ fn one_execution(s: &Scen) {
             let h = spawn_producer(writer, chunks.clone(), s.flush_after, s.bufwriter);
             match prog {
                 Prog::SwitchAwait => {
-                    buf.switch(Dest::new(s.short_dest));
+                    buf.switch(if s.interrupt_dest { Dest::interrupting(s.short_dest) } else { Dest::new(s.short_dest) });
                     let d = buf.await_real_file();
                     assert_eq!(d.data, all, "destination bytes differ from the bytes written");
                     record_outcome(&d.calls);
                 }
                 Prog::SwitchPollAwait => {
-                    buf.switch(Dest::new(s.short_dest));
+                    buf.switch(if s.interrupt_dest { Dest::interrupting(s.short_dest) } else { Dest::new(s.short_dest) });
                     while !buf.is_real_file_ready() {
                         loom::thread::yield_now();
                     }
@@ -238,7 +250,7 @@ fn one_execution(s: &Scen) {
                     record_outcome(&d.calls);
                 }
                 Prog::ClosedWrite => {
-                    let mut out = Dest::new(s.short_dest);
+                    let mut out = if s.interrupt_dest { Dest::interrupting(s.short_dest) } else { Dest::new(s.short_dest) };
                     buf.expect_closed_write(&mut out).expect("expect_closed_write failed");
                     assert_eq!(out.data, all, "copied bytes differ from the bytes written");
                     record_outcome(&out.calls);
@@ -317,6 +329,7 @@ impl Check for C12 {
                             bufwriter: false,
                             preemption_bound: None,
                             short_dest: false,
+                            interrupt_dest: false,
                         });
                         // the same against a destination that takes two bytes per call
                         if h.iter().any(|w| *w == 3) && (h.len() <= 2 || !quick) && *prog != Prog::LenOnly {
@@ -328,6 +341,7 @@ impl Check for C12 {
                                 bufwriter: false,
                                 preemption_bound: None,
                                 short_dest: true,
+                                interrupt_dest: false,
                             });
                         }
                     }
@@ -344,6 +358,7 @@ impl Check for C12 {
                         bufwriter: true,
                         preemption_bound: None,
                         short_dest: false,
+                        interrupt_dest: false,
                     });
                 }
             }
@@ -366,6 +381,21 @@ impl Check for C12 {
                     (vec![1, 3, 1], vec![3, 1, 1], Some(2)),
                 ]
             };
+            // a destination that answers its first write call with Interrupted
+            for prog in [Prog::SwitchAwait, Prog::ClosedWrite, Prog::SwitchPollAwait] {
+                for h in [vec![1usize], vec![3, 1], vec![1, 3, 1]] {
+                    v.push(Scen {
+                        writes: h,
+                        flush_after: None,
+                        inmemory,
+                        prog: prog.clone(),
+                        bufwriter: false,
+                        preemption_bound: None,
+                        short_dest: false,
+                        interrupt_dest: true,
+                    });
+                }
+            }
             // one producer thread, two successive buffers
             for (a, b) in [(vec![1usize, 1], vec![1usize]), (vec![3, 1], vec![1, 3]), (vec![1], vec![])] {
                 v.push(Scen {
@@ -376,6 +406,7 @@ impl Check for C12 {
                     bufwriter: false,
                     preemption_bound: None,
                     short_dest: false,
+                    interrupt_dest: false,
                 });
             }
             // two-level stacks whose lower buffer is switched at each of the three possible moments
@@ -394,6 +425,7 @@ impl Check for C12 {
                         bufwriter: false,
                         preemption_bound: pb,
                         short_dest: false,
+                        interrupt_dest: false,
                     });
                 }
             }
@@ -406,6 +438,7 @@ impl Check for C12 {
                     bufwriter: false,
                     preemption_bound: pb,
                     short_dest: false,
+                    interrupt_dest: false,
                 });
             }
         }
@@ -449,6 +482,9 @@ impl Check for C12 {
         }
         if s.short_dest {
             out.count("short_write_destination_scenarios", 1);
+        }
+        if s.interrupt_dest {
+            out.count("interrupting_destination_scenarios", 1);
         }
         if s.inmemory {
             out.count("inmemory_scenarios", 1);
